@@ -167,6 +167,27 @@ def run(ctx, model_ok):
                 ctx.violation(why, s, {"cli": r, "front_end": b[:500]})
         if srcs:
             ctx.sample({"stream": label, "src": srcs[len(srcs) // 2][:120], "front_end": astb[len(srcs) // 2][:160]})
+    # size: many consecutive terminators, blank lines and comment lines (before valid code and before an error); a syntax error
+    # whose offending token is a long string literal with multi-byte text
+    n = 60000 if ctx.tier == "thorough" else 20000
+    longs = [("\n" * n + "print(1)\n", "0"), (";" * n + "print(1)\n", "0"), ("# c\n" * n + "print(1)\n", "0"),
+             ("x := [\n" + "\n" * n + "1]\nprint(x[0])\n", "0"), ("\n" * n + "x := )\n", "103"), ("# é\n" * n + "1 +\n", "103"),
+             ("print(1)" + ";\n" * n + "print(1)\n", "0")]
+    for k in range(34, 46):
+        longs.append((f'x := 1 "{"a" * k}é{"b" * 10}"\n', "103"))
+        longs.append((f'x := [1 "{"€" * (k // 3)}{"a" * (k % 3)}😀 tail"]\n', "103"))
+    lres = core.cli_batch([l[0] for l in longs], timeout=20)
+    ctx.count("long-inputs:cli", len(longs))
+    for (src, st), r in zip(longs, lres):
+        ctx.nontrivial(("long", len(src) // 1000, st, src[:8]))
+        ok = r["status"] == st and ("panicked" not in r["stderr"]) and (st == "0" or re.match(r"^t\.sd:\d+:\d+: ", r["stderr"]))
+        if st == "0":
+            ok = ok and r["stdout"] in ("1\n", "1\n1\n")
+        if not ok:
+            head = src[:60] + (f" … ({len(src)} characters)" if len(src) > 120 else "")
+            ctx.violation(f"a long or wide input is not decided cleanly: expected status {st}, got {r['status']}: {r['stderr'][:160]!r} (input starts {head!r})",
+                          src, {"cli": {k2: v[:400] for k2, v in r.items()}})
+            break
     # invalid UTF-8: read error, nothing run
     bad = [b"print(1)\n\xff", b"\xc3", b"\xe2\x82", b"a := \"\xf0\x9f\"\n", b"\x80print(1)\n", b"# \xfe\n"]
     res = core.cli_batch(bad)
